@@ -99,12 +99,13 @@ Adjust(q, x0, delta0, h, p0) ==
 OpSeqs == UNION {[1..n -> {"next", "insert", "delete"}] : n \in 0..MaxOps}
 
 \* the tail of runGraphite's do-loop after findNDoRule
-Control(q, x, h, p, c) ==
+ControlM(q, x, h, p, c, ml) ==
   IF x # NULL /\ (x = h \/ p \/ (LoopLimit /\ c - 1 = 0))
   THEN LET forced == (x # h /\ ~p)                \* only then was --lc evaluated and reached 0
            x2 == IF forced THEN h ELSE x
-       IN  [x |-> x2, hw |-> IF x2 # NULL THEN NextOf(q, x2) ELSE h, lc |-> MaxLoop]
+       IN  [x |-> x2, hw |-> IF x2 # NULL THEN NextOf(q, x2) ELSE h, lc |-> ml]
   ELSE [x |-> x, hw |-> h, lc |-> IF x # NULL /\ x # h /\ ~p THEN c - 1 ELSE c]
+Control(q, x, h, p, c) == ControlM(q, x, h, p, c, MaxLoop)
 
 \* one iteration in which no rule fires: slot = slot->next()
 NoRule ==
